@@ -47,9 +47,14 @@ theorem rep_return {G : GCtx} (ok : G.OK) {pi : PInfo} (hpi : pi ∈ G.procs) (s
   have wf := ok.wfs pi hpi sp dep hi hlo hspv
   exact {
     sp := h1
-    vals := fun n w h => by simp [KOf] at h
+    vals := by
+      intro n w h
+      have := rep.vals n w h
+      unfold ValBound at this ⊢
+      rw [hloc]
+      exact this
     vars := by
-      intro n w _ hr
+      intro n w hρ hr
       change X.readName G.xc s' n = .ok (.int w) at hr
       cases hl : s'.locals.lookup n with
       | some b =>
@@ -61,7 +66,7 @@ theorem rep_return {G : GCtx} (ok : G.OK) {pi : PInfo} (hpi : pi ∈ G.procs) (s
           cases b with
           | var o => cases o <;> exact hr
           | _ => exact hr
-        obtain ⟨a, ha, hlt, hv⟩ := rep.vars n w rfl hr0
+        obtain ⟨a, ha, hlt, hv⟩ := rep.vars n w hρ hr0
         refine ⟨a, ha, hlt, ?_⟩
         have hge : sp + q ≤ a := by
           rcases wf.loc_sep n a ha with hlow | hhigh
@@ -82,7 +87,7 @@ theorem rep_return {G : GCtx} (ok : G.OK) {pi : PInfo} (hpi : pi ∈ G.procs) (s
         | some g =>
           rw [hgv] at hr
           cases g with
-          | val w' => exact absurd hgv (ok.no_vals n w')
+          | val w' => have := (ok.rho_ok n w').mp hgv; rw [show G.rho n = none from hρ] at this; simp at this
           | array id => simp at hr
           | proc q => simp at hr
           | var =>
@@ -154,7 +159,7 @@ theorem rep_return {G : GCtx} (ok : G.OK) {pi : PInfo} (hpi : pi ∈ G.procs) (s
         | some g =>
           rw [hgv] at hr
           cases g with
-          | val w' => exact absurd hgv (ok.no_vals n w')
+          | val w' => simp at hr
           | proc q => simp at hr
           | var =>
             exfalso
@@ -190,9 +195,9 @@ theorem exec_usercall {G : GCtx} (ok : G.OK) (fuel : Nat) (hcs : CallSpec G fuel
     (es : List X.Expr) (fuel' : Nat) (st s : X.St) (ws : List Val) (hp : ∀ e ∈ es, pureE e = true)
     (hev : X.evalArgs fuel' G.xc es st = .ok ws s)
     (gs : GS) (code : Code) (gs' : GS) (i : Nat) (a b : Word) (mem : Mem)
-    (hg : callSeq pj.callKind (optArgsOf (fun _ => none) es).length (countCalls (optArgsOf (fun _ => none) es))
-            (genCallActuals (G.ctxOf pi) (optArgsOf (fun _ => none) es))
-            (fun p sv => loadActuals (G.ctxOf pi) (optArgsOf (fun _ => none) es) p sv) gs = .ok (code, gs'))
+    (hg : callSeq pj.callKind (optArgsOf G.rho es).length (countCalls (optArgsOf G.rho es))
+            (genCallActuals (G.ctxOf pi) (optArgsOf G.rho es))
+            (fun p sv => loadActuals (G.ctxOf pi) (optArgsOf G.rho es) p sv) gs = .ok (code, gs'))
     (hat : At G.env.ds i (lowerCode G.cg code)) (hr : Rep (KOf G pi sp dep hi) st mem)
     (hsz : gs'.size ≤ G.S pi) (hnl : pi.p.locals.length ≤ gs.offset) (hci : ConstsIn (KOf G pi sp dep hi) gs') :
     match X.callUser fuel G.xc pj.p ws s with
@@ -213,7 +218,7 @@ theorem exec_usercall {G : GCtx} (ok : G.OK) (fuel : Nat) (hcs : CallSpec G fuel
       show a = sp + G.S pi - 1 - (G.S pi - 1 - (a - sp))
       omega
   obtain ⟨c1, gs1, c2, gs2, h1, h2, hcode, hgs'⟩ := callSeq_inv _ _ _ _ _ _ _ _ hg
-  obtain ⟨hnc, hcnt⟩ := genCallActuals_noCall (G.ctxOf pi) (optArgsOf (fun _ => none) es) { gs with size := gs.offset }
+  obtain ⟨hnc, hcnt⟩ := genCallActuals_noCall (G.ctxOf pi) (optArgsOf G.rho es) { gs with size := gs.offset }
     (optArgsOf_noCall _ es hp)
   rw [hnc] at h1
   simp only [Except.ok.injEq, Prod.mk.injEq] at h1
@@ -221,7 +226,7 @@ theorem exec_usercall {G : GCtx} (ok : G.OK) (fuel : Nat) (hcs : CallSpec G fuel
   subst hc1; subst hgs1
   rw [hcnt, callKind_po] at h2
   simp only [bumpN] at h2
-  have hlen : (optArgsOf (fun _ => none) es).length = es.length := by simp [optArgsOf]
+  have hlen : (optArgsOf G.rho es).length = es.length := by simp [optArgsOf]
   subst hgs'
   simp only [callKind_po, hlen] at hsz hci
   subst hcode
